@@ -76,6 +76,13 @@ func runC12(m *Sim) {
 			peers[i].Stop()
 		}
 	}
+	// The normal state of a fleet: a server is listed on itself too, and the
+	// peers list each other (each post is gossiped on by its receiver).
+	if m.C.Chance("self-listed", 1, 2) {
+		n.PostJSON("/api/v1/authorized-servers", SignServer(gca, server.AuthorizedServer{PublicKey: n.Key.Pub, Location: n.Loc, HttpPort: n.HTTP, TcpPort: n.TCP, UdpPort: n.UDP}))
+		m.Probe("c12.self-listed")
+	}
+	c12Fleet = append([]*ServerNode{n}, peers...)
 	if m.C.Chance("ghost-peer", 1, 2) {
 		as := SignServer(gca, server.AuthorizedServer{PublicKey: Key("ghost").Pub, Location: "ghost.sim", HttpPort: 1, TcpPort: 2, UdpPort: 3})
 		n.PostJSON("/api/v1/authorized-servers", as)
@@ -302,6 +309,9 @@ func c12Query(m *Sim, h *Hist, route string) string {
 	return "?" + strings.Join(parts, "&")
 }
 
+// c12Fleet is the server under test and its peers (set per run).
+var c12Fleet []*ServerNode
+
 func c12Body(m *Sim, h *Hist, route string, gca *KeyPair) []byte {
 	switch m.C.Weighted("body", 3, 2, 2, 4) {
 	case 0:
@@ -328,6 +338,14 @@ func c12Body(m *Sim, h *Hist, route string, gca *KeyPair) []byte {
 		b, _ := json.Marshal(SignAuth(gca, a))
 		return b
 	case "authorized-servers":
+		if len(c12Fleet) > 0 && m.C.Chance("fleet-member", 1, 2) {
+			// An order about a server of the fleet with its real address: bans,
+			// replays of the original authorization, repeated bans.
+			f := c12Fleet[m.C.Int("member", len(c12Fleet))]
+			b, _ := json.Marshal(SignServer(gca, server.AuthorizedServer{PublicKey: f.Key.Pub, Banned: m.C.Chance("ban-member", 1, 2), Location: f.Loc, HttpPort: f.HTTP, TcpPort: f.TCP, UdpPort: f.UDP}))
+			m.Probe("c12.fleet-order")
+			return b
+		}
 		as := server.AuthorizedServer{PublicKey: Key(fmt.Sprintf("s%d", m.C.Int("k", 4))).Pub, Banned: m.C.Chance("banned", 1, 3),
 			Location: []string{"", "x.sim", strings.Repeat("l", 255), strings.Repeat("L", 256), strings.Repeat("L", 700), "a b\x00c", "[::1]"}[m.C.Int("loc", 7)],
 			HttpPort: uint16(m.C.Int("port", 1<<16)), TcpPort: 65535, UdpPort: 0}
